@@ -143,7 +143,7 @@ def ssa_cfg(name, ns, maxrx, maxside, nt):
 
 
 def generate(tier, seed):
-    n = 2400 if tier == "quick" else 40000
+    n = 4800 if tier == "quick" else 40000
     r1 = common.run_tlc_many("Ssa", ssa_cfg("ssa_sim_a", 2, 3, 2, 6), 8, n, 90, seed, allow_violation=True)
     r2 = common.run_tlc_many("Ssa", ssa_cfg("ssa_sim_b", 3, 3, 3, 5), 8, n // 2, 90, seed + 17, allow_violation=True)
     # networks with 4..6 reactions (an error that needs many reactions, e.g. an unrolled summation, shows only here)
